@@ -8,6 +8,22 @@ VERIF = os.path.dirname(os.path.dirname(os.path.abspath(__file__)))
 ALL = [f"C{i:02d}" for i in range(1, 21)]
 
 CHECKS = {
+    "C20": dict(
+        category="exploration",
+        technique="exhaustive enumeration of a cycle catalogue (shape x length x placement) with every positional request at every identifier, under a watchdog",
+        text=("Exhaustive enumeration of the cycle catalogue: 20 cyclic/self-referential shapes (USE, USE with renames, "
+              "EXTENDS in one and several modules, submodule ancestry with both parent syntaxes, pointer initialisation, "
+              "ASSOCIATE flat and nested, type-bound procedure links, procedure pointers, generic interfaces/bindings, "
+              "Fortran INCLUDE, #include, macro references, SELECT TYPE bindings, recursive components, dummy procedures of "
+              "their own interface, result names, self-USE) x cycle length 1..4 (thorough 1..6) x placement (one file / unit "
+              "per file). Each workspace is indexed at start-up by a fresh real server, every file is opened and saved, and "
+              "all nine positional requests are issued at every identifier and after every '%' plus documentSymbol and "
+              "workspace/symbol; every answer must be a well-formed result within the time budget; a watchdog turns "
+              "non-termination into a violation."),
+        note=("Trusted: shape validators (vf/shapes.py), watchdog budgets (5 s per request, 120 s per workspace). Cycle "
+              "shapes outside the catalogue are not covered."),
+        design="DESIGN.md §4 C20",
+    ),
     "C09": dict(
         category="exploration",
         technique="bounded-exhaustive enumeration of document x position x method on a live server, with shape validators and range-in-document checks",
